@@ -33,6 +33,7 @@ import (
 	"os"
 	"os/exec"
 	"path/filepath"
+	"regexp"
 	"strconv"
 	"strings"
 	"sync"
@@ -83,6 +84,9 @@ type crEnv struct {
 	results  []string
 	cancels  []context.CancelFunc
 	activity atomic.Int64
+	// tr=quic (c18quic.go)
+	fq      map[int]*fqQuery
+	fqConns []*fqConn
 }
 
 type crConn struct {
@@ -209,6 +213,9 @@ func (e *crEnv) quiesce() {
 
 func runCloseRace(id string, parts []string) string {
 	f := hx.Fields(parts)
+	if f["tr"] == "quic" {
+		return runCloseRaceQuic(id, f)
+	}
 	env := &crEnv{honour: f["dm"] == "honour", queries: map[int]*crQuery{}}
 	it := time.Duration(hx.MustAtoi(f["it"])) * time.Millisecond
 	maxs := hx.MustAtoi(f["max"])
@@ -723,8 +730,45 @@ func suBound(ports []suPort) int {
 var suBinOnce sync.Once
 var suBinPath string
 
+// A free port chosen by the harness can be taken by another process before the router binds it. Such a collision
+// (an "address already in use" on a port the harness does not hold on purpose) says nothing about the property:
+// the case is run again with fresh ports.
+var suPortRe = regexp.MustCompile(`127\.0\.0\.1:(\d+)`)
+
+func suCollision(text string, intended map[int]bool) bool {
+	for _, line := range strings.Split(text, "\n") {
+		if !strings.Contains(line, "address already in use") {
+			continue
+		}
+		ports := suPortRe.FindAllStringSubmatch(line, -1)
+		if len(ports) == 0 && len(intended) == 0 {
+			return true
+		}
+		for _, m := range ports {
+			p, _ := strconv.Atoi(m[1])
+			if !intended[p] {
+				return true
+			}
+		}
+	}
+	return false
+}
+
 func runStartup(id string, parts []string) string {
+	res := ""
+	for try := 0; try < 4; try++ {
+		coll := false
+		res = runStartupOnce(id, parts, &coll)
+		if !coll {
+			return res
+		}
+	}
+	return "HARNESS-ERROR repeated port collisions: " + res
+}
+
+func runStartupOnce(id string, parts []string, coll *bool) string {
 	f := hx.Fields(parts)
+	intended := map[int]bool{}
 	dir, err := os.MkdirTemp("", "verif-c18-")
 	if err != nil {
 		return "HARNESS-ERROR " + err.Error()
@@ -765,6 +809,7 @@ func runStartup(id string, parts []string) string {
 				return "HARNESS-ERROR " + err.Error()
 			}
 			held = append(held, l)
+			intended[p] = true
 		} else if reached("metrics", 0) {
 			before = append(before, suPort{p, false})
 		}
@@ -851,6 +896,7 @@ func runStartup(id string, parts []string) string {
 					return "HARNESS-ERROR " + err.Error()
 				}
 				held = append(held, c)
+				intended[p] = true
 			case "proto":
 				sc.Protocol = "bogus"
 			case "cert":
@@ -867,11 +913,15 @@ func runStartup(id string, parts []string) string {
 	}
 
 	if f["mode"] == "bin" {
-		return startupBin(dir, cfg, failKind != "none", before)
+		return startupBin(dir, cfg, failKind != "none", before, intended, coll)
 	}
 	return guard(id, 30*time.Second, func() string {
 		r, err := router.VerifRun(cfg)
 		if err != nil {
+			if suCollision(err.Error(), intended) {
+				*coll = true
+				return "port collision"
+			}
 			freed := suFreed(before)
 			return fmt.Sprintf("res=ERR srv=%d", freed)
 		}
@@ -893,7 +943,7 @@ func runStartup(id string, parts []string) string {
 	})
 }
 
-func startupBin(dir string, cfg *router.Config, expectFail bool, before []suPort) string {
+func startupBin(dir string, cfg *router.Config, expectFail bool, before []suPort, intended map[int]bool, coll *bool) string {
 	suBinOnce.Do(func() {
 		suBinPath = os.Getenv("VERIF_MOSPROXY")
 		if suBinPath == "" {
@@ -930,6 +980,10 @@ func startupBin(dir string, cfg *router.Config, expectFail bool, before []suPort
 			if err == nil {
 				return "res=OK srv=0 EXIT0"
 			}
+			if suCollision(errb.String()+outb.String(), intended) {
+				*coll = true
+				return "port collision"
+			}
 			return fmt.Sprintf("res=ERR srv=%d", suFreed(before))
 		case <-time.After(10 * time.Second):
 			cmd.Process.Kill()
@@ -943,6 +997,10 @@ func startupBin(dir string, cfg *router.Config, expectFail bool, before []suPort
 		case <-done:
 			if trace() {
 				return "PANIC! the binary printed a Go panic trace"
+			}
+			if suCollision(errb.String()+outb.String(), intended) {
+				*coll = true
+				return "port collision"
 			}
 			return "res=ERR srv=0"
 		default:
